@@ -42,7 +42,7 @@ const BASE_ASSUME: [&str; 3] = [
 
 pub fn plan(prop: &str) -> Option<Plan> {
     let conc = |q: u64, t: u64| -> Vec<Part> {
-        vec![p("K1", q, t), p("K2", q, t), p("K3", q, t), p("K4", q, t), p("K5", q, t), p("K6", q, t), p("K7", q, t)]
+        vec![p("K1", q, t), p("K2", q, t), p("K3", q, t), p("K4", q, t), p("K5", q, t), p("K6", q, t), p("K7", q, t), p("K8", q, t)]
     };
     let mut assumptions: Vec<&'static str> = BASE_ASSUME.to_vec();
     let (level, parts, rule): (&str, Vec<Part>, &str) = match prop {
@@ -84,6 +84,8 @@ pub fn plan(prop: &str) -> Option<Plan> {
         "C12" => ("exploration", vec![p("Q4", 4000, 100_000)], "one run = one structured allocation pattern of a tree built through the lower-level API, then a directed search for every order from a hint in every row; distinct = distinct pattern bitmap; non-trivial = pattern has allocated frames; schedule: single-thread"),
         "C13" => {
             let mut v = conc(2500, 200_000);
+            v[7].quick = 25_000;
+            v[7].thorough = 1_500_000;
             v.push(p("Q13", 15_000, 600_000));
             v.push(p("Q1", 8000, 300_000));
             ("exploration", v, CONC_RULE)
